@@ -78,7 +78,9 @@ func (x *Exec) atLoopHeader(st *State, lp *loop, from *ssa.BasicBlock) bool {
 	env := x.frameEnv(st)
 	if back {
 		for _, c := range ls.Inv {
-			x.oblige(st, keyName+":keep:"+c.Label, "invariant", c.Src, x.evalBool(env, c.E))
+			g := x.evalBool(env, c.E)
+			x.oblige(st, keyName+":keep:"+c.Label, "invariant", c.Src, g)
+			st.assume(g) // cut: later clauses are proved under the earlier ones
 		}
 		if ls.Decreases != nil {
 			v0 := fr.variant[lp.header.Index]
